@@ -143,6 +143,7 @@ class Result(object):
         self.t_final_call = False   # t_err / t_end belong to the call after
         #                             the last request was handed out
         self.vtime = 0.0
+        self.rtox = []          # (response index, value asked, value confirmed)
 
 
 def timeouts(cfg):
@@ -150,6 +151,10 @@ def timeouts(cfg):
     several response waiting times, the target outlasts any recovery"""
     rwt = 4096 / 13.56E6 * 2 ** cfg["rwt"]
     t_i = 6 * rwt + 1.0
+    # response timeout extensions the target application will ask for: the
+    # initiator's caller allows for them (twice: one may have to be waited
+    # out again after a lost frame)
+    t_i += 2 * sum(v for _, v in cfg.get("rtox") or []) * rwt
     # one Target.exchange() spans all chained frames of a response and of the
     # next request; each of them may cost one rwt of recovery
     return {"rwt": rwt, "i": t_i, "t": 150 * rwt + 4 * t_i + 10.0,
@@ -209,9 +214,23 @@ def converse(cfg, reqs, ress, script, step_budget=20000, medium=None):
                 out.t_params = {"miu": tg.miu, "did": tg.did, "rwt": tg.rwt,
                                 "brty": tg.target.brty}
                 data, k = None, 0
+                plan = [list(x) for x in cfg.get("rtox") or []]
                 while True:
                     out.t_final_call = k >= len(reqs)
                     try:
+                        # the application needs more time for this response:
+                        # response timeout extension request(s) first
+                        stop = False
+                        for idx, v in plan:
+                            if data is not None and idx == k - 1:
+                                got = tg.send_timeout_extension(v)
+                                out.rtox.append((idx, v, got))
+                                if got is None:
+                                    stop = True
+                                    break
+                        if stop:
+                            out.t_end = "rtox-none"
+                            break
                         req = tg.exchange(data, tmo["t"])
                     except nfc.clf.CommunicationError as e:
                         out.t_err = (k, e)
